@@ -8,7 +8,7 @@ ASSUMPTIONS = ["formula vocabulary of Exec/Model.v (integers/None, calls, refere
 
 
 def run(tier, seed, rng):
-    return E.run_exec_property("C09", tier, rng, 110, 2000, {'p_fin_world': 0.2, 'alt': [(0.4, {'p_raise': 0.15, 'p_try': 0.4})], 'p_derived': 0.3, 'maxdepth': (30, 60), 'p_ref': 0.35, 'p_uncached': 0.35, 'p_none': 0.06, 'p_allow_none': 0.3}, {'eval': 6, 'clearat': 1, 'clear': 1, 'setf': 2, 'setcached': 2, 'setref': 3, 'scn_unc': 1, 'scn_unc2': 1}, (10, 30), ORACLES,
+    return E.run_exec_property("C09", tier, rng, 110, 2000, {'p_fin_world': 0.2, 'alt': [(0.4, {'p_raise': 0.15, 'p_try': 0.4})], 'p_derived': 0.3, 'maxdepth': (30, 60), 'p_ref': 0.35, 'p_uncached': 0.35, 'p_none': 0.06, 'p_allow_none': 0.3}, {'eval': 6, 'clearat': 1, 'clear': 1, 'setf': 2, 'setcached': 2, 'setref': 3, 'scn_unc': 1, 'scn_unc2': 1, 'setallow': 1, 'scn_allow': 1}, (10, 30), ORACLES,
         'worlds as C02 with a third of the cells uncached; each history is run under two assignments of the cached flag (random subset flipped, flag changes dropped or kept) and all answers compared; uncached cells must hold no values' + "; non-trivial = an uncached cells and a reference edit; distinct by JSON of the case",
         lambda c, r: any(not x['cached'] for x in c['world']['cells']) and any(op[0]=='setref' for op in c['ops']), diff=E.oracle_flags)
 
